@@ -272,12 +272,16 @@ NOT_APPLICABLE = {}
 # Clauses added after the second round of seeded changes / large refactorings (appended to the texts above).
 ADDENDA = {
     "C01": " The range premise of the bit-decomposition hint (0 <= E < 2^N) is decided by interval reasoning over the "
-           "dominating tests; a range that is not implied is a violation.",
+           "dominating tests; a range that is not implied is a violation.  A constraint written on the guard wire itself "
+           "(guard*y = 0) is judged by guard scenario (no guard / guard 1 with the honest premise, guard 0 on every path); small "
+           "helpers computing a hint are evaluated in place, a swallowed exception splitting the case.",
     "C02": " Also: constraint emission is memoryless (no cached state on wire objects / module tables decides emission); every "
            "value if_then_else returns for a secret condition is select(c,t,f) (polynomial or truth table); every fresh factor "
            "of a field product relation is range-bounded (the unbounded divmod quotient is a recorded known finding with a "
            "forged-witness demonstration); under a guard every constraint is enforced on its own (guard*dummy = 0 per constraint, "
-           "shared with C07).",
+           "shared with C07); assert_zero / assert_nonzero say self = 0 / self*w = 1 on every completing path for a guard of "
+           "value 1; two cheaper one-hot selector designs are accepted through their lemmas (sa/selnorm.py), every hypothesis "
+           "checked.",
     "C03": " Also: a test that skips the range check on unpack is evaluated for every small modulus; declarations are enforced "
            "at every call (memoryless rule); the enforced relation is stated over wires - no trace-time value of an operand "
            "is folded into a gadget operand.",
@@ -288,6 +292,8 @@ ADDENDA = {
            "integer / fixed-point comparisons happen at one scale; selection returns the chosen alternative; no operator writes "
            ".value/.lc of an object that may be one of its operands (flow-sensitive may-alias analysis); no result or "
            "decomposition is cached on an operand (memoryless rule).",
+    "C06": " Also: state kept across calls and consulted by a decision is never written under value-derived control (.value, "
+           "is_guard(), ignore_errors()).",
     "C07": " Also: emission is memoryless; a raise inside the guarded arm of add_constraint implies the unguarded arm's raise "
            "condition.",
     "C08": " Also: nothing computed from the guard outlives the region (memoryless rule); add_guard is the last fallible step "
@@ -301,16 +307,19 @@ ADDENDA = {
     "C12": " Also: the whole equation line passes one context-consistency check; a block lists exactly the members it is given, "
            "in order; no table keyed by hash(value); every composite name built around a per-context counter contains the "
            "context (globally unique wire and call names).",
-    "C13": " The merge is executed on four key classes including 'present in both with coefficients cancelling to 0'; a field "
+    "C13": " An operator that may hand back one of its operands (`return self`) makes every in-place update of its result an "
+           "update of an operand (may-alias through operator results).  The merge is executed on four key classes including 'present in both with coefficients cancelling to 0'; a field "
            "selected by name is resolved through the backend's table and compared with the curve's scalar-field order.",
     "C14": " Also: `/` is never applied to a representation (exact division is not a floor); the integer-secret class rejects "
            "or defers fixed-point operands (the strict-comparison defect named in the property was found by this rule and "
-           "repaired); no negation is moved across a floor division (rounding stays towards minus infinity).",
+           "repaired); sign parity of every rounding division (negating both operands keeps the floor, negating one operand or "
+           "the quotient turns it into a ceiling).",
     "C15": " Also: the per-position multiplexer if_then_else selects exactly (shared with C02); selector, read and write are "
            "stated over symbolic sequences (any spelling of the iteration); Array(x) stores a list of its own.",
     "C16": " Also: the evaluated skip predicate of the unpack range check (shared with C03); the checks dominating the bit "
            "construction of to_bits imply 0 <= v < 2^n (interval reasoning).",
-    "C18": " Also: under autoprove the exit callback runs backend.prove() exactly once and under no other condition.",
+    "C18": " Also: under autoprove the exit callback runs backend.prove() exactly once and under no other condition; the recorded "
+           "exit code / exception is written by the interposed hooks only (never reset).",
     "C19": " Stage rules are stated on the outcomes of a symbolic execution of the selection code over an abstract registry "
            "row (pairing of name and module on every outcome, no second assignment of backend, decision order, loud failure "
            "of a named backend, report of an unknown name before auto-detection); the environment is matched against a row only "
